@@ -21,6 +21,7 @@ import (
 	"github.com/semihalev/sdns/middleware"
 	"github.com/semihalev/sdns/middleware/cache"
 	"github.com/semihalev/sdns/middleware/resolver"
+	"github.com/semihalev/sdns/middleware/resolver/dnssec"
 )
 
 func repoDir() string {
@@ -584,6 +585,35 @@ func shapeFacts() map[string]any {
 		}
 	}
 	out["shape_checkhosts_uses_request_context"] = refreshOK
+
+	// the hashed-denial verifiers the resolver is required to run (name error, NODATA, insecure
+	// delegation, wildcard expansion) are handed the request tree's own work adapter: the distinct
+	// source texts of their work argument, and how many such calls there are
+	var workArgs []string
+	nCalls := 0
+	seenArg := map[string]bool{}
+	ast.Inspect(res.file, func(n ast.Node) bool {
+		c, ok := n.(*ast.CallExpr)
+		if !ok {
+			return true
+		}
+		switch callName(c) {
+		case "VerifyNameErrorForZoneWithWork", "VerifyNODATAForZoneWithWork", "VerifyDelegationForZoneWithWork", "VerifyWildcardAnswerForZoneWithWork",
+			"VerifyNameErrorWithWork", "VerifyNODATAWithWork", "VerifyDelegationWithWork", "VerifyWildcardAnswerWithWork":
+			nCalls++
+			if len(c.Args) > 0 {
+				a := res.text(c.Args[len(c.Args)-1])
+				if !seenArg[a] {
+					seenArg[a] = true
+					workArgs = append(workArgs, a)
+				}
+			}
+		}
+		return true
+	})
+	sort.Strings(workArgs)
+	out["nsec3_verifier_work_args"] = workArgs
+	out["nsec3_verifier_calls"] = nCalls
 	return out
 }
 
@@ -605,6 +635,7 @@ func facts() map[string]any {
 	out["max_queryer_recursion"] = middleware.VerifC12MaxQueryerRecursion()
 	out["max_dname_depth"] = resolver.VerifC12MaxDnameDepth()
 	out["max_cname_chase_depth"] = cache.VerifC12MaxCnameChaseDepth()
+	out["max_nsec3_memo_entries"] = dnssec.VerifC12MaxNSEC3HashMemoEntries()
 	out["ede_code_network"] = int((&middleware.RecursionWorkLimitError{Kind: middleware.RecursionWorkOutboundQuery}).EDECode())
 	out["ede_code_dnssec"] = int((&middleware.RecursionWorkLimitError{Kind: middleware.RecursionWorkSignature}).EDECode())
 	agg := make([]bool, nKinds)
